@@ -882,11 +882,23 @@ func valueCountRule(p *Prog, r *Report, id string) {
 // C11.R10: when the method has a default FUNC, the pointer rules always start from it
 
 func constructorAlwaysUsedRule(p *Prog, r *Report, id string) {
-	r.Rule(id, "the method starts from FUNC's result whenever it has one: evaluated with ctx.UseConstructor = true (and, for *T → *U / *T → U, ctx.Conf.DefaultUpdate = true), no path of TargetPointer.Build, Pointer.Build or SourcePointer.Build returns success without having called buildTargetVar — no further condition (assignability of FUNC's result type, …) can send the conversion back to the zero-value path", 3)
+	r.Rule(id, "the method starts from FUNC's result whenever it has one: evaluated with ctx.UseConstructor = true (and, for *T → *U / *T → U, ctx.Conf.DefaultUpdate = true), no path of TargetPointer.Build, Pointer.Build, SourcePointer.Build — and of the builders that create the target themselves: BuildByAssign, Map.Build, Struct.Build (named target), List.Build (slice source) — returns success without having called buildTargetVar; no further condition (assignability of FUNC's result type, the kind of target …) can send the conversion back to the zero-value path", 5)
 	for _, k := range []struct {
-		fn     string
-		update bool
-	}{{"builder.(*TargetPointer).Build", false}, {"builder.(*Pointer).Build", true}, {"builder.(*SourcePointer).Build", true}} {
+		fn       string
+		update   bool
+		needFlag bool            // the rule itself must read ctx.UseConstructor (it has a path of its own without FUNC)
+		atoms    map[string]bool // further assumptions: "source.ListFixed" …
+	}{
+		{"builder.(*TargetPointer).Build", false, true, nil},
+		{"builder.(*Pointer).Build", true, true, nil},
+		{"builder.(*SourcePointer).Build", true, true, nil},
+		// the builders that create the target themselves: through BuildByAssign → buildTargetVar (D22: List.Build
+		// declared `var x []T` on its own and dropped FUNC); an array source is never nil, so its make() path is exempt
+		{"builder.BuildByAssign", false, false, nil},
+		{"builder.(*Map).Build", false, false, nil},
+		{"builder.(*Struct).Build", false, false, map[string]bool{"target.Named": true}},
+		{"builder.(*List).Build", false, true, map[string]bool{"source.ListFixed": false}},
+	} {
 		fi, sf := needFunc(p, r, k.fn)
 		if fi == nil {
 			continue
@@ -910,6 +922,11 @@ func constructorAlwaysUsedRule(p *Prog, r *Report, id string) {
 				if k.update && loadsFieldNamed(v, "DefaultUpdate") {
 					return aBool(true), true
 				}
+				if role, path := roleFieldPath(v); role != "" {
+					if want, ok := k.atoms[role+"."+path]; ok {
+						return aBool(want), true
+					}
+				}
 				return aUnknown, false
 			},
 			marks: func(in ssa.Instruction) (string, bool) {
@@ -918,7 +935,7 @@ func constructorAlwaysUsedRule(p *Prog, r *Report, id string) {
 					return "", false
 				}
 				o := ssaCalleeObj(c).Origin()
-				if isFunc(o, modPath+"/builder", "", "buildTargetVar") || carriers[o] {
+				if isFunc(o, modPath+"/builder", "", "buildTargetVar") || carriers[o] || (isFunc(o, modPath+"/builder", "", "BuildByAssign") && k.fn != "builder.BuildByAssign") {
 					return "ctor", true
 				}
 				return "", false
@@ -933,7 +950,7 @@ func constructorAlwaysUsedRule(p *Prog, r *Report, id string) {
 		})
 		site := k.fn + "/constructor always used"
 		switch {
-		case nFlag == 0:
+		case nFlag == 0 && k.needFlag:
 			r.Bad(site, p.PosStr(fi.Decl.Pos()), "ctx.UseConstructor is not read: a default FUNC would be ignored at this position")
 		case got != nil:
 			r.Bad(site, p.PosStr(got.Pos()), "with a default FUNC configured a path still returns a conversion that never called buildTargetVar: FUNC is skipped and the result starts from the zero value (fields FUNC sets, e.g. ignored ones, are lost)")
